@@ -27,6 +27,11 @@ LEVEL_TEXT = (
     "them for every input of those shapes. The bookkeeping of the autodiff "
     "assembly (rows/cols/slots/sign) is decided structurally. Not decided: "
     "that jax.linearize is the derivative (trusted), Newton behaviour.")
+LEVEL_TEXT += (
+    " Added after the seeding phase: (R4) every operator method of "
+    "JaxDiscreteField computes value(u) op c, reflected ones c op "
+    "value(u), for plain and field operands (polynomial / rational "
+    "identity).")
 LEVEL_NOTE = (
     "Trusted: numpy/jax.numpy einsum, array literals and pointwise "
     "arithmetic follow their documented semantics; jax.linearize / jvp are "
